@@ -205,7 +205,7 @@ def _parse_strings(blt_lines: Iterable[str],
         return None, None
     if len(parsed_lines) == 1:
         if n_cands == 1:
-            return parsed_lines[0], None
+            return parsed_lines, None
         else:
             return None, parsed_lines[0]
     elif len(parsed_lines) < n_cands:
